@@ -75,8 +75,27 @@ def write_if_changed(path: Path, content: str) -> bool:
     return True
 
 
-def build(targets=None, timeout=1500) -> BuildResult:
-    """Regenerate Gen/Tables.v from /repo, then a full .vo make (incremental)."""
+def _compile_driver(name):
+    d = OCAML / name
+    ml, exe = d / "model.ml", d / "model_driver"
+    if not ml.exists():
+        return f"{ml} missing (extraction did not run)"
+    if exe.exists() and exe.stat().st_mtime >= ml.stat().st_mtime \
+            and exe.stat().st_mtime >= (OCAML / "driver.ml").stat().st_mtime:
+        return None
+    (d / "driver.ml").write_text((OCAML / "driver.ml").read_text())
+    q = subprocess.run(
+        ["ocamlfind", "ocamlopt", "-w", "-a", "model.mli", "model.ml", "driver.ml", "-o", "model_driver"],
+        cwd=d, capture_output=True, text=True)
+    if q.returncode != 0:
+        return q.stdout + q.stderr
+    return None
+
+
+def build(pid=None, models=("lang",), extra_targets=(), timeout=3000) -> BuildResult:
+    """Regenerate Gen/Tables.v from /repo, then a full .vo build (make) of what the check needs:
+    Properties/<pid>.vo, the Extract<Model>.vo files of `models`, `extra_targets` and all their
+    dependencies; pid=None builds everything (setup).  Then the extracted OCaml drivers."""
     lock = _lock()
     try:
         from . import gen_tables
@@ -94,23 +113,25 @@ def build(targets=None, timeout=1500) -> BuildResult:
                 ["coq_makefile", "-f", "_CoqProject", *files, "-o", "Makefile"],
                 cwd=COQ, check=True, capture_output=True)
             stamp.write_text(listing)
+        for name in models:
+            (OCAML / name).mkdir(parents=True, exist_ok=True)
         cmd = ["timeout", str(timeout), "make", "-j16", "-k"]
-        if targets:
-            cmd += targets
+        if pid is not None:
+            tg = [f"theories/Properties/{pid}.vo"] if (COQ / "theories" / "Properties" / f"{pid}.v").exists() else []
+            tg += [f"theories/Extract/Extract{m.capitalize()}.vo" for m in models]
+            tg += list(extra_targets)
+            cmd += tg
         p = subprocess.run(cmd, cwd=COQ, capture_output=True, text=True)
         log = p.stdout + p.stderr
         if p.returncode != 0:
             m = re.search(r'File "\./(theories/[^"]+)"', log)
             return BuildResult(False, log, m.group(1) if m else None)
-        # extracted model -> native driver
-        ml, exe = OCAML / "model.ml", OCAML / "model_driver"
-        if (not exe.exists()) or exe.stat().st_mtime < ml.stat().st_mtime \
-                or exe.stat().st_mtime < (OCAML / "driver.ml").stat().st_mtime:
-            q = subprocess.run(
-                ["ocamlfind", "ocamlopt", "-w", "-a", "model.mli", "model.ml", "driver.ml",
-                 "-o", "model_driver"], cwd=OCAML, capture_output=True, text=True)
-            if q.returncode != 0:
-                return BuildResult(False, q.stdout + q.stderr, "ocaml/model.ml")
+        if pid is None:
+            models = [d.name for d in OCAML.iterdir() if d.is_dir()]
+        for name in models:
+            err = _compile_driver(name)
+            if err:
+                return BuildResult(False, err, f"ocaml/{name}/model.ml")
         return BuildResult(True, log)
     finally:
         lock.close()
@@ -147,10 +168,29 @@ FORBIDDEN = re.compile(
     r"type-in-type|impredicative-set)\b")
 
 
-def scan_forbidden():
-    """No Admitted/Axiom/Parameter/... anywhere in the development (comments stripped)."""
+def dep_closure(start_files):
+    """Transitive `From GV Require Import X.Y` closure of theories files (relative to theories/)."""
+    th = COQ / "theories"
+    seen, todo = set(), list(start_files)
+    while todo:
+        f = todo.pop()
+        if f in seen or not (th / f).exists():
+            continue
+        seen.add(f)
+        txt = re.sub(r"\(\*.*?\*\)", "", (th / f).read_text(), flags=re.S)
+        for m in re.finditer(r"From\s+GV\s+Require\s+(?:Import|Export)\s+(.+?)\.(?=\s|$)", txt, flags=re.S):
+            for mod in m.group(1).split():
+                todo.append(mod.replace(".", "/") + ".v")
+    return sorted(seen)
+
+
+def scan_forbidden(files=None):
+    """No Admitted/Axiom/Parameter/... in the development (comments stripped).
+    files: theories-relative paths to scan (default: everything)."""
     bad = []
-    for p in (COQ / "theories").rglob("*.v"):
+    th = COQ / "theories"
+    paths = [th / f for f in files] if files is not None else list(th.rglob("*.v"))
+    for p in paths:
         txt = p.read_text()
         txt = re.sub(r"\(\*.*?\*\)", "", txt, flags=re.S)
         for m in FORBIDDEN.finditer(txt):
@@ -164,8 +204,8 @@ def scan_forbidden():
 class Model:
     """Runs the extracted model on batches of integer-list cases."""
 
-    def __init__(self):
-        self.exe = OCAML / "model_driver"
+    def __init__(self, name="lang"):
+        self.exe = OCAML / name / "model_driver"
 
     def run_batch(self, cases, timeout=1200):
         if not cases:
@@ -241,7 +281,9 @@ class Check:
         """Account for the proof obligations of Properties/<pid>.v."""
         self.checker_cmd = ("cd /verif/coq && coq_makefile -f _CoqProject <all theories/*.v> -o Makefile"
                             f" && make -j16 && coqc -Q theories GV theories/Properties/{self.pid}.v")
-        bad = scan_forbidden()
+        deps = dep_closure([f"Properties/{self.pid}.v"])
+        bad = scan_forbidden(deps)
+        self.extra["coq_files"] = deps
         if bad:
             self.proof_breaks.append("forbidden construct: " + "; ".join(bad[:5]))
         f = COQ / "theories" / "Properties" / f"{self.pid}.v"
